@@ -88,7 +88,11 @@ def one(mut):
 
 
 def load_mutants(args):
-    from selftest import mutants as mm
+    # loaded by path: when this file is imported as module `selftest` (thorough tier) the package of the same name is shadowed
+    import importlib.util
+    spec = importlib.util.spec_from_file_location("verif_selftest_mutants", os.path.join(HERE, "selftest", "mutants.py"))
+    mm = importlib.util.module_from_spec(spec)
+    spec.loader.exec_module(mm)
     ms = list(mm.M)
     if args.seeded:
         ms = []
